@@ -287,9 +287,19 @@ public:
 			BlockType* pC = sum._block;
 			BlockType* pEnd = pC + nrBlocks;
 			while (pC != pEnd) {
-				carry += static_cast<std::uint64_t>(*pA) + static_cast<std::uint64_t>(*pB);
-				*pC = static_cast<bt>(carry);
-				if constexpr (bitsInBlock == 64) carry = 0; else carry >>= bitsInBlock;
+				if constexpr (bitsInBlock == 64) {
+					// a 64-bit accumulator cannot hold the carry out of a 64-bit limb: detect the wrap-arounds instead
+					std::uint64_t a = static_cast<std::uint64_t>(*pA);
+					std::uint64_t partial = a + static_cast<std::uint64_t>(*pB);
+					std::uint64_t total = partial + carry;
+					*pC = static_cast<bt>(total);
+					carry = (partial < a || total < partial) ? 1ull : 0ull;
+				}
+				else {
+					carry += static_cast<std::uint64_t>(*pA) + static_cast<std::uint64_t>(*pB);
+					*pC = static_cast<bt>(carry);
+					carry >>= bitsInBlock;
+				}
 				++pA; ++pB; ++pC;
 			}
 			// enforce precondition for fast comparison by properly nulling bits that are outside of nbits
@@ -326,6 +336,30 @@ public:
 		}
 		return *this;
 	}
+	// product of two non-negative operands held in 64-bit limbs, modulo 2^(64*nrBlocks), into *this (which must be cleared):
+	// schoolbook multiplication over 32-bit half limbs, so that every partial sum fits a uint64_t
+	template<typename Operand>
+	void multiply_limbs64(const Operand& a, const Operand& b) noexcept {
+		constexpr unsigned nrDigits = 2u * static_cast<unsigned>(nrBlocks);
+		std::uint32_t product[nrDigits] = { 0 };
+		auto digit = [](const Operand& x, unsigned k) -> std::uint64_t {
+			std::uint64_t limb = static_cast<std::uint64_t>(x.block(k / 2));
+			return (k & 1u) ? (limb >> 32) : (limb & 0xFFFF'FFFFull);
+		};
+		for (unsigned i = 0; i < nrDigits; ++i) {
+			std::uint64_t ai = digit(a, i);
+			if (ai == 0) continue;
+			std::uint64_t carry = 0;
+			for (unsigned j = 0; i + j < nrDigits; ++j) {
+				std::uint64_t t = ai * digit(b, j) + product[i + j] + carry; // <= (2^32-1)^2 + 2(2^32-1) = 2^64 - 1
+				product[i + j] = static_cast<std::uint32_t>(t);
+				carry = t >> 32;
+			}
+		}
+		for (unsigned k = 0; k < static_cast<unsigned>(nrBlocks); ++k) {
+			_block[k] = static_cast<bt>(static_cast<std::uint64_t>(product[2 * k]) | (static_cast<std::uint64_t>(product[2 * k + 1]) << 32));
+		}
+	}
 	integer& operator*=(const integer& rhs) {
 		if constexpr (NumberType == IntegerNumberType::IntegerNumber) {
 			if constexpr (nrBlocks == 1) {
@@ -343,15 +377,20 @@ public:
 					multiplicant.twosComplement();
 				}
 				clear();
-				for (unsigned i = 0; i < static_cast<unsigned>(nrBlocks); ++i) {
-					std::uint64_t segment(0);
-					for (unsigned j = 0; j < static_cast<unsigned>(nrBlocks); ++j) {
-						segment += static_cast<std::uint64_t>(base.block(i)) * static_cast<std::uint64_t>(multiplicant.block(j));
+				if constexpr (bitsInBlock == 64) {
+					multiply_limbs64(base, multiplicant); // a limb product does not fit the 64-bit segment
+				}
+				else {
+					for (unsigned i = 0; i < static_cast<unsigned>(nrBlocks); ++i) {
+						std::uint64_t segment(0);
+						for (unsigned j = 0; j < static_cast<unsigned>(nrBlocks); ++j) {
+							segment += static_cast<std::uint64_t>(base.block(i)) * static_cast<std::uint64_t>(multiplicant.block(j));
 
-						if (i + j < static_cast<unsigned>(nrBlocks)) {
-							segment += _block[i + j];
-							_block[i + j] = static_cast<bt>(segment);
-							if constexpr (bitsInBlock == 64) segment = 0; else segment >>= bitsInBlock; // a shift by the full width of the accumulator is undefined
+							if (i + j < static_cast<unsigned>(nrBlocks)) {
+								segment += _block[i + j];
+								_block[i + j] = static_cast<bt>(segment);
+								segment >>= bitsInBlock;
+							}
 						}
 					}
 				}
@@ -365,15 +404,20 @@ public:
 			else {
 				integer<nbits, BlockType, NumberType> base(*this), multiplicant(rhs);
 				clear();
-				for (unsigned i = 0; i < static_cast<unsigned>(nrBlocks); ++i) {
-					std::uint64_t segment(0);
-					for (unsigned j = 0; j < static_cast<unsigned>(nrBlocks); ++j) {
-						segment += static_cast<std::uint64_t>(base.block(i)) * static_cast<std::uint64_t>(multiplicant.block(j));
+				if constexpr (bitsInBlock == 64) {
+					multiply_limbs64(base, multiplicant); // a limb product does not fit the 64-bit segment
+				}
+				else {
+					for (unsigned i = 0; i < static_cast<unsigned>(nrBlocks); ++i) {
+						std::uint64_t segment(0);
+						for (unsigned j = 0; j < static_cast<unsigned>(nrBlocks); ++j) {
+							segment += static_cast<std::uint64_t>(base.block(i)) * static_cast<std::uint64_t>(multiplicant.block(j));
 
-						if (i + j < static_cast<unsigned>(nrBlocks)) {
-							segment += _block[i + j];
-							_block[i + j] = static_cast<bt>(segment);
-							if constexpr (bitsInBlock == 64) segment = 0; else segment >>= bitsInBlock; // a shift by the full width of the accumulator is undefined
+							if (i + j < static_cast<unsigned>(nrBlocks)) {
+								segment += _block[i + j];
+								_block[i + j] = static_cast<bt>(segment);
+								segment >>= bitsInBlock;
+							}
 						}
 					}
 				}
